@@ -28,15 +28,17 @@ def bases(size: str) -> list[dict]:
         ("prefix", "datatype", "quoted")
     for scope in scopes:
         for cls in DR.CLASSES:
-            for preset in ((8, 2, 0), (9, 3, 2)):
+            for preset, fs in (((8, 2, 0), 3), ((9, 3, 2), 3), ((8, 0, 1), 1)):
+                if size != "full" and fs == 1:
+                    continue
                 alpha = [s for s in AL.alphabet(scope, 3 if cls == "triple" else 4)
                          if AL.fits(s, preset)]
                 if len(alpha) < 2:
                     continue
                 seq = alpha[:3]
-                data = DR.g_write(seq, cls, DR.make_options(cls, preset, 3, True))
+                data = DR.g_write(seq, cls, DR.make_options(cls, preset, fs, True))
                 frames = jwire.read_delimited(data)
-                out.append({"name": f"{scope}/{cls}/{preset}", "cls": cls, "preset": preset,
+                out.append({"name": f"{scope}/{cls}/{preset}/fs{fs}", "cls": cls, "preset": preset,
                             "frames": [f["rows"] for f in frames],
                             "rdf11": all(T.is_rdf11(s) for s in seq)})
     return out
@@ -124,7 +126,7 @@ def mutants_at(base, pos: int):
                                    ("zero", 0)):
                     if which != "datatype" and label == "zero":
                         continue
-                    if which == "prefix" and size == 0:
+                    if which == "prefix" and size == 0 and label != "beyond-size":
                         continue
                     if which == "datatype" and size == 0 and label != "beyond-size":
                         continue
@@ -233,7 +235,7 @@ def shard(job) -> dict:
 
 def run(ctx) -> None:
     DR.ensure_rdflib_plugin()
-    size = "small" if ctx.quick else "full"
+    size = "full"  # the whole space costs about a second: both tiers run all of it
     bs = bases(size)
     merged = pool.merge(pool.pmap(shard, [(size, i) for i in range(len(bs))]))
     ctx.add(merged)
